@@ -31,7 +31,7 @@ static int gate(char kind, const std::string& path, size_t size, size_t& shortn)
     if (g_mode == 2) { if (g_count == g_k) _exit(77); return 0; }
     if (g_mode == 3 && kind != 'r') {
         bool hit = (g_count == g_k) || (g_persistent && g_fault_hit && path == g_fault_path);
-        if (hit) { g_fault_hit = true; g_fault_path = path; if (g_fault == 3) { shortn = size > 1 ? size / 2 : 0; if (size <= 1) { errno = ENOSPC; return 1; } return 2; } if (g_fault == 4) return 3; errno = g_fault == 1 ? ENOSPC : EIO; return 1; }
+        if (hit) { g_fault_hit = true; g_fault_path = path; if (g_fault == 3) { shortn = size > 1 ? size / 2 : 0; if (size <= 1) { errno = ENOSPC; return 1; } return 2; } if (g_fault == 4) return 3; errno = g_fault == 1 ? ENOSPC : g_fault == 5 ? EINTR : EIO; return 1; }
     }
     return 0;
 }
@@ -212,7 +212,9 @@ int main(int argc, char** argv) {
         } else {
             // ---- fault mode (C16)
             bool hung = false;
-            for (long k = 1; k <= K; k++) { if (trace[k - 1].kind == 'r') continue; for (int fault = 1; fault <= 4; fault++) for (int persist = 0; persist < 2; persist++) {
+            for (long k = 1; k <= K; k++) { if (trace[k - 1].kind == 'r') continue; for (int fault = 1; fault <= 5; fault++) for (int persist = 0; persist < 2; persist++) {
+                // fault 5: write() returns -1 with EINTR (interrupted before any byte was transferred) - once, descriptor outputs only. Retrying and reporting are both fine; losing the bytes silently is not.
+                if (fault == 5 && (!sc.fd || persist)) continue;
                 // fault 4: write() transfers nothing and returns 0 - descriptor outputs only (for named outputs libstdc++ itself retries for ever, which says nothing about c-dns);
                 // persistent only; after the first hang of a scenario its remaining fault-4 cases are skipped
                 if (fault == 4 && (!sc.fd || !persist || hung)) continue;
@@ -236,7 +238,7 @@ int main(int argc, char** argv) {
                 unlink(rf.c_str());
                 if (!hit) { R.violation("fault|fault-point-not-reached", "call " + std::to_string(k) + " never happened", rep); continue; }
                 R.count("nontrivial");
-                std::string fkind = fault == 1 ? "ENOSPC" : fault == 2 ? "EIO" : fault == 3 ? "short" : "zero-byte write";
+                std::string fkind = fault == 1 ? "ENOSPC" : fault == 2 ? "EIO" : fault == 3 ? "short" : fault == 4 ? "zero-byte write" : "EINTR";
                 const Call& c = trace[k - 1];
                 // clause 1 (no silent loss): an output closed by a rotate_output that returned normally, reached by the same history as in the
                 // fault-free run, must hold exactly the fault-free content. Outputs closed by the recovery rotation after an exception have a
